@@ -23,6 +23,7 @@ import TboxModel.C17.Ids
 import TboxModel.C17.ExecLog
 import TboxModel.C17.Rerun
 import TboxModel.C17.Local
+import TboxModel.C17.ParLeaves
 namespace Tbox.C17
 
 /-! ## Layer 1 — one action, every call sequence
@@ -541,6 +542,74 @@ theorem C17_exec_callbacks_once (ops : List Exec.XOp) (hok : ops.all Exec.opOk =
 
 example : (Exec.xrun {} [.append .dummy 2, .append .dummy 2, .append .dummy 0, .emit 3 true, .pass]).curr = some 2 := by decide +kernel
 
+
+/-! ## ParallelAction in the whole-tree theorem (M3, first closed case: Parallel over leaves; ParLeaves.lean)
+
+The tree is `.node d (ofList l)`: a ParallelAction `d` of any mode (AllFinish / AnyFail / AnySucc) over ANY number of
+children `l`, each a freshly built FunctionAction (succ / fail, with or without reason) or SleepAction (any delay), no
+timeouts (`leafOkB`, decidable).  Several children are active at once and their notifications share one batch of the
+loop, so the proof is an invariant over batches (`PI`), kept by every `runTask id` and every `fireOne` in ANY order. -/
+
+/-- **`C17_result_matches_doc` for Parallel over leaves (all modes)**: start the freshly built tree, then ANY sequence of
+loop passes and clock steps.  The documented meaning is "success" (`eval = some (true, 0)`); what the owner observes is the
+calls of ALL FunctionAction children in child order (`fnIds l`: `ParallelAction::onStart` starts every child, in order,
+within `start()`), followed by NO or exactly ONE finish notification, carrying (true, 0) — never two, never another result,
+never a function called again. -/
+theorem C17_result_matches_doc_par_leaves (d : Node) (l : List Node) (m : Mode3) (hk : d.kind = .par m) (htmo : d.tmo = none)
+    (hc : cleanNode d = true) (hl : ∀ c ∈ l, leafOkB c = true) (ops : List Op) (hcf : ops.all cfOp = true) :
+    eval (.node d (ofList l)) = some (true, 0) ∧
+    (trOf (run (.node d (ofList l)) {} (.calls [.start] :: ops)).2.log = (fnIds l).map Sum.inl ∨
+     trOf (run (.node d (ofList l)) {} (.calls [.start] :: ops)).2.log = (fnIds l).map Sum.inl ++ [Sum.inr (true, 0)]) :=
+  ⟨(par_leaves_run d l m (maxMs l) hk htmo hc hl (Nat.le_refl _) ops hcf).1, (par_leaves_run d l m (maxMs l) hk htmo hc hl (Nat.le_refl _) ops hcf).2.1⟩
+
+/-- **`C17_finishes_exactly_once` for Parallel over leaves (all modes) + nothing left running**: if the schedule contains at
+least THREE big ops (clock steps of at least `M` ms, `M` ≥ every SleepAction delay; plain passes when `M = 0`) — in any
+position, with any other passes and clock steps interleaved, going on for as long as it likes afterwards — then the trace
+IS all function calls in child order followed by exactly one finish notification (true, 0), the root is Finished, and no
+action of the tree is Running or Pause (children still sleeping when an AnySucc / AnyFail parallel finished were stopped).
+Three = one for the delays to expire, one batch for the children's notifications, one for the root's own. -/
+theorem C17_par_leaves_finishes_exactly_once (d : Node) (l : List Node) (m : Mode3) (M : Nat) (hk : d.kind = .par m) (htmo : d.tmo = none)
+    (hc : cleanNode d = true) (hl : ∀ c ∈ l, leafOkB c = true) (hM : maxMs l ≤ M) (ops : List Op) (hcf : ops.all cfOp = true)
+    (hbig : 3 ≤ bigCount M ops) :
+    trOf (run (.node d (ofList l)) {} (.calls [.start] :: ops)).2.log = (fnIds l).map Sum.inl ++ [Sum.inr (true, 0)] ∧
+    (run (.node d (ofList l)) {} (.calls [.start] :: ops)).1.data.st = .finished ∧
+    Quiet (run (.node d (ofList l)) {} (.calls [.start] :: ops)).1 = true :=
+  (par_leaves_run d l m M hk htmo hc hl hM ops hcf).2.2 hbig
+
+/-- a covered tree: Parallel(AnySucc)[ F1(fail), Sleep2(101 ms), F3(succ), Sleep4(305 ms) ] -/
+def parLeaves : List Node :=
+  [{ id := 1, kind := .func false none }, { id := 2, kind := .sleep 101 }, { id := 3, kind := .func true none }, { id := 4, kind := .sleep 305 }]
+
+example : (∀ c ∈ parLeaves, leafOkB c = true) ∧ maxMs parLeaves = 305 ∧ fnIds parLeaves = [1, 3] ∧
+    cleanNode { id := 0, kind := .par .anySucc } = true := by decide +kernel
+example : bigCount 305 [Op.adv 400, .pass, .adv 305, .adv 100, .adv 1000] = 3 := by decide +kernel
+/-- on this instance: F3 succeeds, the AnySucc parallel finishes in the first batch and stops both sleeps -/
+example : trOf (run (.node { id := 0, kind := .par .anySucc } (ofList parLeaves)) {} [.calls [.start], .pass, .pass]).2.log =
+    [Sum.inl 1, Sum.inl 3, Sum.inr (true, 0)] := by decide +kernel
+/-- AllFinish waits for the longest sleep -/
+example : trOf (run (.node { id := 0, kind := .par .all } (ofList parLeaves)) {} [.calls [.start], .pass, .adv 200, .pass, .pass]).2.log =
+      [Sum.inl 1, Sum.inl 3] ∧
+    trOf (run (.node { id := 0, kind := .par .all } (ofList parLeaves)) {} [.calls [.start], .pass, .adv 200, .adv 200, .pass, .pass]).2.log =
+      [Sum.inl 1, Sum.inl 3, Sum.inr (true, 0)] := by decide +kernel
+
+/-! ### timeouts: why a pass-free `evalT` cannot be the documented meaning (OPEN T, sharpened) -/
+
+/-- Sequence@202ms[ Sleep(103 ms) ] -/
+def raceTree : T := comp 0 (.seq .all) [leaf 1 (.sleep 103)] (some 202)
+
+/-- **the result of a tree with a timeout depends on the granularity of the loop passes**: the child's delay (103 ms) is
+shorter than the timeout (202 ms).  When loop passes run in between, the sequence succeeds with the child's result.  When
+the loop is late by more than the difference — ONE pass finds both timers expired — `handleExpiredTimers` fires the sleep
+first (deadline order), its notification is only QUEUED (runNext), the timeout fires in the same timer phase while the
+sequence is still Running, and the sequence FAILS with reason 1 (timeout), its child already Finished.  Both runs are
+reproduced on the real code by the generator family `tmo-race`.  So a documented finishing time / result for trees with
+timeouts needs a hypothesis on the schedule (a pass between any two deadlines of the tree); it is not a function of the
+tree alone. -/
+theorem C17_timeout_result_depends_on_pass_granularity :
+    rootFins (run raceTree {} [.calls [.start], .adv 150, .pass, .pass, .adv 100, .pass]) = [(true, .finished)] ∧
+    rootFins (run raceTree {} [.calls [.start], .adv 300, .pass, .pass]) = [(false, .finished)] ∧
+    Quiet (run raceTree {} [.calls [.start], .adv 300, .pass, .pass]).1 = true := by decide +kernel
+
 /-! ### OPEN (stated, not proved; carried by the executable model + correspondence + monitors)
 
 -- OPEN C17_result_matches_doc, remaining milestones (closed: `C17_result_matches_doc_serial` incl. Loop /
@@ -570,12 +639,27 @@ example : (Exec.xrun {} [.append .dummy 2, .append .dummy 2, .append .dummy 0, .
 --   2·nodes+4 passes run first; 30000 random free runs with several scripts and control calls are clean on HEAD, and
 --   `settle` is back in the random free generator.  Control calls on INNER nodes from call-outs are misuse (the parent
 --   keeps its own bookkeeping) and are not generated.
--- OPEN M3 (Parallel in the whole-tree theorem): closed so far `C17_run_ids_distinct` (`step_idsOk`) and
---   `C17_run_task_local`.  Missing: (ii) `RunOk` for several active children: `AP` (at most one queued task) replaced by "every child is
+-- OPEN M3 (Parallel in the whole-tree theorem): closed `C17_run_ids_distinct` (`step_idsOk`), `C17_run_task_local`, and — round 8 —
+--   Parallel (all modes, any number of children) over Function / Sleep leaves as the ROOT: `C17_result_matches_doc_par_leaves`,
+--   `C17_par_leaves_finishes_exactly_once` (ParLeaves.lean: batch invariant `PI`, kept by every `runTask` / `fireOne` in any order;
+--   a batch delivers every queued child notification because run ids are distinct).  Still open, exactly:
+--   (a) Parallel-over-leaves as a CHILD of a serial composite: `Good` (Sim2) contains `AP` (at most one queued task in the
+--       subtree) and `runQueue_embed` (Sim) is proved from `AP`; needed: `AP` weakened to "every queued task of the subtree is a
+--       finish notification with a run id below `nextId`" plus the batch form of `runQueue_embed` (the ids of the snapshot stay
+--       below the ids posted during the batch, so the child's own notification is never in the snapshot) — then `par_leaves_run`
+--       gives `Good` / `Live` of the parallel node and `both_size` (Sim7) takes it as one more kind;
+--   (b) Parallel over COMPOSITE children: each child needs its own `Ctx` (the others are not inert), i.e. `step_embed` for a
+--       family of active children whose handler paths are `Apart` (`C17_run_task_local` is the one-task case), and `PI` with
+--       `LeafOk` replaced by "child i is at some state of ITS `Good` run"; the trace clause becomes an interleaving.
+--   Old note: (ii) `RunOk` for several active children: `AP` (at most one queued task) replaced by "every child is
 --   AP", and the trace clause by "the trace restricted to the leaves of child i is a prefix of / equals `visit c_i`" (an
 --   interleaving); (iii) the lockstep lemma: one pass = one `step` of every active child, in run-id order.
 -- OPEN T (timeouts in the evaluator's domain): `evalT : T → Option (Bool × Nat × Nat)` with the finishing time needs
 --   `Good` to carry absolute times (start time + delay) through `KSpec`; `DPS.tmo = none` is used by every `good_*`.
+--   Round 8: `C17_timeout_result_depends_on_pass_granularity` shows that the statement itself needs a schedule hypothesis
+--   ("a loop pass runs between any two distinct deadlines of the tree, and `depth` passes before the next deadline"): with one
+--   late pass a timeout beats a child whose delay is shorter.  Not closed; the generator family `tmo-race` runs both
+--   schedules on the real code in quick.
 -- OPEN "a Running composite waits for something" (`stuckRoot` never holds in the repaired configuration): monitored
 --   by the driver on every state (`running-composite-waits-for-nothing`), proved on the instances above only; as an
 --   invariant it needs, beside `WF`, "a Running serial composite has a current child under way, or a notification /
